@@ -8,10 +8,13 @@ import GoagModel.JsonModel
 import GoagModel.Naming
 import GoagModel.Resp
 import GoagModel.Alias
+import GoagModel.Props.C08b
 /-
   Line-protocol driver: one tab-separated request per line on stdin, one answer line on
   stdout.  The first field selects the model function.  Imports only executable model
-  modules (no Props, no Mathlib) so that it links as a `lean_exe`.
+  modules and, for the hypotheses of the JSON tree theorems (`wf`, `rt`, `frag`, `leavesOk`, `shapeOk`:
+  the driver reports which inputs of a run lie inside the proved fragments), the core-only proof
+  modules that define them; no Mathlib, so that it links as a `lean_exe`.
 -/
 open Goag
 
@@ -169,7 +172,7 @@ def handle (st : State) (fields : List String) : IO (State × String) := do
         let v ← JsonM.readVal vj
         let j ← JsonM.toJ s v
         let kf := if JsonM.hasEmbeddedAddl s then "KF-C06-embeddedAddl" else ""
-        pure s!"canon={toHex j.canon}\tdump={JsonM.dumpVal s v}\tR:conforms={JsonM.conforms s j}\tK:{kf}"
+        pure s!"canon={toHex j.canon}\tdump={JsonM.dumpVal s v}\tR:conforms={JsonM.conforms s j}\tK:{kf}\tT:wf={JsonM.wf s v},rt={JsonM.rt st.jleaf s v}"
       match res with
       | .ok r => pure (st, s!"{id}\t{r}")
       | .error e => pure (st, s!"{id}\tunmodelled:{e}")
@@ -186,10 +189,10 @@ def handle (st : State) (fields : List String) : IO (State × String) := do
         if JsonM.hasEmbeddedAddl s then throw "K:KF-C06-embeddedAddl" else
         match JsonM.decode st.jleaf s j with
         | .error (.unmodelled m) => throw m
-        | .error e => pure s!"dec={e.render}\tR:conforms={ok} expect={toHex (JsonM.prune st.jleaf s j).canon}"
+        | .error e => pure s!"dec={e.render}\tR:conforms={ok} expect={toHex (JsonM.prune st.jleaf s j).canon}\tT:frag={JsonM.frag s},leaves={JsonM.leavesOk st.jleaf s j},shape={JsonM.shapeOk s j}"
         | .ok v =>
           match JsonM.toJ s v with
-          | .ok j2 => pure s!"dec=ok dump={JsonM.dumpVal s v} reenc={toHex j2.canon}\tR:conforms={ok} expect={toHex (JsonM.prune st.jleaf s j).canon} reencConforms={JsonM.conforms s j2}"
+          | .ok j2 => pure s!"dec=ok dump={JsonM.dumpVal s v} reenc={toHex j2.canon}\tR:conforms={ok} expect={toHex (JsonM.prune st.jleaf s j).canon} reencConforms={JsonM.conforms s j2}\tT:frag={JsonM.frag s},leaves={JsonM.leavesOk st.jleaf s j},shape={JsonM.shapeOk s j}"
           | .error e => throw s!"re-encode: {e}"
       match res with
       | .ok r => pure (st, s!"{id}\t{r}")
